@@ -1,4 +1,283 @@
-def add_driver_traces(ctx, res, rng, dims, prop):
+"""Driver-level traces of Integration.one_pop ... five_pops: proxies around the injection functions,
+the compiled kernels and the tridiagonal solver record one event per spec action (spec/Trace_Integrator.tla)."""
+import itertools, math, random, copy
+import numpy as np
+from . import common
+from .common import rat, rats
+from .scheme_common import AXN, rand_grid, rand_density, loguni
+
+FUNCS = {1: 'one_pop', 2: 'two_pops', 3: 'three_pops', 4: 'four_pops', 5: 'five_pops'}
+
+
+def _mig_names(P):
+    return [(i, j) for i in range(1, P + 1) for j in range(1, P + 1) if i != j]
+
+
+def gen_case(rng, P, mode=None, n=None, kind=None, frozen_bias=False):
+    """A JSON-able description of one driver call.  Parameters are c0 + c1*t; passing = 'const' | 'func'."""
+    mode = mode or rng.choice(['const', 'funcconst', 'linear'])
+    n = n or {1: rng.choice([7, 12]), 2: rng.choice([5, 7]), 3: 5, 4: 4, 5: 3}[P]
+    kind = kind or rng.choice(['normal'] * 8 + ['zero', 'backwards', 'frozenmig'])
+    frozen = [False] * P
+    nomut = [False] * P
+    if P >= 2 and rng.random() < (0.85 if frozen_bias else 0.4):
+        for k in rng.sample(range(P), rng.randint(1, P - 1) if frozen_bias else 1):
+            frozen[k] = True
+    if P == 2 and rng.random() < (0.5 if frozen_bias else 0.3):
+        nomut[rng.randrange(P)] = True
+
+    def par(lo, hi, zero_ok=False, logu=False):
+        c0 = 0.0 if (zero_ok and rng.random() < 0.3) else (loguni(rng, lo, hi) if logu else rng.uniform(lo, hi))
+        c1 = 0.0
+        if mode == 'linear' and rng.random() < 0.7 and c0 != 0.0:
+            c1 = c0 * rng.uniform(-0.3, 0.3)      # slowly varying: stays positive over the few steps taken
+        return {'c0': c0, 'c1': c1}
+    pars = []
+    for k in range(1, P + 1):
+        mig = []
+        for j in range(1, P + 1):
+            if j == k or frozen[k - 1] or frozen[j - 1]:
+                mig.append({'c0': 0.0, 'c1': 0.0, 'const': True})
+            else:
+                m = par(0.05, 10, zero_ok=True)
+                m['c0'] = round(m['c0'], 3) + (0.001 * (k * 5 + j) if m['c0'] else 0.0)
+                mig.append(m)
+        pars.append({'nu': par(0.05, 20, logu=True), 'gamma': par(-10, 10, zero_ok=True), 'h': {'c0': rng.choice([0.5, 0.0, 1.0, rng.random()]), 'c1': 0.0},
+                     'beta': ({'c0': loguni(rng, 0.3, 3), 'c1': 0.0} if P == 1 and rng.random() < 0.5 else {'c0': 1.0, 'c1': 0.0}), 'mig': mig})
+    theta0 = par(0.1, 5)
+    case = {'P': P, 'n': n, 'grid_kind': rng.choice(['exponential', 'uniform', 'random']), 'grid_seed': rng.randrange(10 ** 6),
+            'phi_seed': rng.randrange(10 ** 6), 'mode': mode, 'kind': kind, 'par': pars, 'theta0': theta0,
+            'frozen': frozen, 'nomut': nomut, 't0': rng.choice([0.0, 0.0, 0.3]), 'steps': rng.uniform(0.3, 4.5)}
+    if kind == 'frozenmig' and P >= 2:
+        k = rng.randrange(P)
+        case['frozen'][k] = True
+        j = (k + 1) % P
+        case['par'][k]['mig'][j] = {'c0': 1.5, 'c1': 0.0}
+    return case
+
+
+def _value(f, mode):
+    """How a parameter is passed to dadi: a constant or a function of time."""
+    c0, c1 = f['c0'], f['c1']
+    if mode == 'const' or f.get('const'):
+        return c0
+    return (lambda t, c0=c0, c1=c1: c0 + c1 * t)
+
+
+class _Log:
+    def __init__(self, tid):
+        self.ev = []
+        self.tid = tid
+        self.n = itertools.count()
+
+    def add(self, op, **kw):
+        d = {'id': 't%d-%d' % (self.tid, next(self.n)), 'tid': 't%d' % self.tid, 'op': op}
+        d.update(kw)
+        self.ev.append(d)
+
+
+def run_case(case, tid, keep_out=False):
+    """Run the real driver under proxies; return the event list (one trace)."""
+    import dadi
+    from dadi import Integration
+    P = case['P']
+    rng_g = random.Random(case['grid_seed'])
+    xx = rand_grid(rng_g, case['n'], case['grid_kind'])
+    phi0 = rand_density(random.Random(case['phi_seed']), [case['n']] * P)
+    mode = case['mode']
+    log = _Log(tid)
+    kwargs = {}
+    for k in range(1, P + 1):
+        p = case['par'][k - 1]
+        sfx = '' if P == 1 else str(k)
+        kwargs['nu' + sfx] = _value(p['nu'], mode)
+        kwargs['gamma' + sfx] = _value(p['gamma'], mode)
+        kwargs['h' + sfx] = _value(p['h'], mode)
+        if P == 1:
+            kwargs['beta'] = _value(p['beta'], mode)
+        for j in range(1, P + 1):
+            if j != k:
+                kwargs['m%d%d' % (k, j)] = _value(p['mig'][j - 1], mode)
+        if P >= 2:
+            kwargs['frozen%d' % k] = case['frozen'][k - 1]
+        if P == 2:
+            kwargs['nomut%d' % k] = case['nomut'][k - 1]
+    kwargs['theta0'] = _value(case['theta0'], mode)
+    if P == 1:
+        kwargs.pop('frozen', None)
+    # duration: a few steps of the documented rule at the initial parameters
+    dts = []
+    for k in range(1, P + 1):
+        p = case['par'][k - 1]
+        ms = [p['mig'][j]['c0'] for j in range(P) if j != k - 1] or [0]
+        dts.append(Integration._compute_dt(np.diff(xx), p['nu']['c0'], ms, p['gamma']['c0'], p['h']['c0']))
+    dt0 = min(dts)
+    t0 = case['t0']
+    T = t0 + case['steps'] * dt0
+    if case['kind'] == 'zero':
+        T = t0
+    elif case['kind'] == 'backwards':
+        T = t0 - 0.1
+    callin = {'P': P, 'grids': [rats(xx)] * P, 'phi': rats(phi0.ravel()), 'T': rat(T), 't0': rat(t0),
+              'par': [{'nu': _encf(p['nu']), 'gamma': _encf(p['gamma']), 'h': _encf(p['h']), 'beta': _encf(p['beta']),
+                       'mig': [_encf(m) for m in p['mig']]} for p in case['par']],
+              'theta0': _encf(case['theta0']), 'frozen': list(case['frozen']), 'nomut': list(case['nomut']), 'mode': mode,
+              'func': FUNCS[P]}
+    log.add('call', **{'in': callin})
+
+    real_int_c, real_tri = Integration.int_c, Integration.tridiag
+    real_inj = {d: getattr(Integration, '_inject_mutations_%dD' % d) for d in range(1, 6)}
+
+    class IntC:
+        def __getattr__(self, name):
+            f = getattr(real_int_c, name)
+            if not name.startswith('implicit_'):
+                return f
+
+            def wrapped(phi, *a, **kw):
+                if kw:      # the 1-D driver passes use_delj_trick by keyword
+                    a = a + tuple(kw[x] for x in ('use_delj_trick',) if x in kw)
+                before = rats(np.asarray(phi).ravel())
+                if name.startswith('implicit_precalc_'):
+                    d = int(name[len('implicit_precalc_')])
+                    k = AXN.index(name[-1]) + 1
+                    A, B, C, dt = a
+                    out = f(phi, *a)
+                    log.add('sweep', kind='precalc', k=k, a=rats(np.asarray(A).ravel()), b=rats(np.asarray(B).ravel()),
+                            c=rats(np.asarray(C).ravel()), dt=rat(dt), before=before, after=rats(np.asarray(out).ravel()))
+                    return out
+                d = int(name[len('implicit_')])
+                k = AXN.index(name[-1]) + 1
+                grids = a[:d]
+                rest = a[d:]
+                if d == 1:
+                    nu, gamma, h, beta, dt = rest[:5]
+                    mig = [0.0]
+                else:
+                    nu = rest[0]
+                    ms = list(rest[1:d])
+                    gamma, h, dt = rest[d], rest[d + 1], rest[d + 2]
+                    beta = 1.0
+                    mig = ms[:k - 1] + [0.0] + ms[k - 1:]
+                out = f(phi, *a)
+                log.add('sweep', kind='kernel', k=k, par={'nu': rat(nu), 'gamma': rat(gamma), 'h': rat(h), 'beta': rat(beta), 'mig': [rat(m) for m in mig]},
+                        dt=rat(dt), before=before, after=rats(np.asarray(out).ravel()))
+                return out
+            return wrapped
+
+    class Tri:
+        def __getattr__(self, name):
+            f = getattr(real_tri, name)
+            if name != 'tridiag':
+                return f
+
+            def wrapped(a, b, c, r):
+                u = f(a, b, c, r)
+                log.add('sweep', kind='tridiag', k=1, a=rats(a), b=rats(b), c=rats(c), r=rats(r), before=log.ev[-1].get('after', []), after=rats(u))
+                return u
+            return wrapped
+
+    def mk_inj(d):
+        def inj(phi, dt, *a):
+            before = rats(np.asarray(phi).ravel())
+            out = real_inj[d](phi, dt, *a)
+            log.add('inject', dt=rat(dt), before=before, after=rats(np.asarray(out).ravel()))
+            return out
+        return inj
+    Integration.int_c, Integration.tridiag = IntC(), Tri()
+    for d in range(1, 6):
+        setattr(Integration, '_inject_mutations_%dD' % d, mk_inj(d))
+    out = None
+    try:
+        try:
+            out = getattr(Integration, FUNCS[P])(phi0.copy(), xx, T, initial_t=t0, **kwargs)
+            log.add('return', out=rats(np.asarray(out).ravel()))
+        except Exception as ex:
+            log.add('raise', exc=type(ex).__name__)
+    finally:
+        Integration.int_c, Integration.tridiag = real_int_c, real_tri
+        for d in range(1, 6):
+            setattr(Integration, '_inject_mutations_%dD' % d, real_inj[d])
+    if keep_out:
+        return log.ev, out
+    return log.ev
+
+
+def _encf(f):
+    return {'c0': rat(f['c0']), 'c1': rat(f['c1'])}
+
+
+def validate(traces, parallel=8):
+    """traces: list of event lists.  Returns (verdicts by tid, stats)."""
+    allrecs = [e for tr in traces for e in tr]
+    return common.validate_trace('Trace_Integrator', allrecs, parallel=parallel, groups=traces)
+
+
+def mutate_trace(tr):
+    """Corrupt one logged field of a trace (binding demonstration): skip one sweep event."""
+    tr = copy.deepcopy(tr)
+    idx = [i for i, e in enumerate(tr) if e['op'] == 'sweep']
+    if not idx:
+        return None
+    del tr[idx[len(idx) // 2]]
+    for e in tr:
+        e['tid'] = 'MUT-' + e['tid']
+        e['id'] = 'MUT-' + e['id']
+    return tr
+
+
+def add_driver_traces(ctx, res, rng, dims, prop, frozen_bias=False):
+    """Generate driver traces, validate them with Trace_Integrator and merge into the pipeline result."""
+    n_per = 6 if ctx.quick else 40
+    cases = []
+    for P in dims:
+        for r in range(n_per if P <= 3 else max(2, n_per // 3)):
+            cases.append(gen_case(rng, P, frozen_bias=frozen_bias))
+    traces = []
+    for tid, case in enumerate(cases):
+        traces.append(run_case(case, tid))
+    verdicts, st = validate(traces)
+    # binding demonstration: a trace with one sweep removed must be rejected
+    muts = [m for m in (mutate_trace(tr) for tr in traces[:12]) if m]
+    mv, _ = validate(muts, parallel=4)
+    missed = [m[0]['tid'] for m in muts if m[0]['tid'] not in mv]
+    if missed:
+        raise common.MachineryError('binding demonstration failed: traces with a sweep removed accepted: %s' % missed[:4])
+    for tid, clauses in verdicts.items():
+        k = int(tid[1:])
+        case = cases[k]
+        for c in clauses:
+            res['violations'].append({'key': 'Integration.%s/%s' % (FUNCS[case['P']], c),
+                                      'what': 'driver trace %s (%s, %s parameters, kind=%s): clause %s violated' % (tid, FUNCS[case['P']], case['mode'], case['kind'], c),
+                                      'payload': {'case': case, 'clause': c, 'trace_spec': 'Trace_Integrator'}})
+    cov = res['coverage']
+    cov['traces_validated_against_impl'] += len(traces)
+    cov['states'] += st['states']
+    cov['transitions'] += st['transitions']
+    cov['driver_traces'] = {'traces': len(traces), 'events': sum(len(t) for t in traces), 'rejected': len(verdicts),
+                            'by_function_and_mode': _count(cases), 'binding_demo': {'mutated_traces': len(muts), 'rejected': len(muts) - len(missed)},
+                            'wall_s': round(st['wall'], 1)}
+    cov['evaluations'] += len(traces)
+    cov['distinct_nontrivial'] += len({(c['P'], c['mode'], c['kind'], tuple(c['frozen']), tuple(c['nomut'])) for c in cases})
+    cov['samples'].append({'driver_case': cases[0], 'events': [e['op'] + (':' + e.get('kind', '') if e['op'] == 'sweep' else '') for e in traces[0]]})
     return res
+
+
+def _count(cases):
+    d = {}
+    for c in cases:
+        k = '%s/%s/%s' % (FUNCS[c['P']], c['mode'], c['kind'])
+        d[k] = d.get(k, 0) + 1
+    return d
+
+
 def replay(ctx, pay):
-    raise NotImplementedError
+    case = pay['case']
+    tr = run_case(case, 0)
+    verdicts, st = validate([tr], parallel=1)
+    viol = []
+    for tid, clauses in verdicts.items():
+        for c in clauses:
+            viol.append({'key': 'Integration.%s/%s' % (FUNCS[case['P']], c), 'what': 'replayed driver trace: clause %s violated' % c, 'payload': pay})
+    return {'coverage': {'states': st['states'], 'transitions': st['transitions'], 'traces_validated_against_impl': 1, 'samples': [case]},
+            'assumptions': [], 'violations': viol}
